@@ -6,6 +6,7 @@ def install(prog):
     from . import xmlstubs  # noqa
     from . import cryptostubs  # noqa
     from . import httpstubs  # noqa
-    for m in (base, xmlstubs, cryptostubs, httpstubs):
+    from . import docstubs  # noqa
+    for m in (base, xmlstubs, cryptostubs, httpstubs, docstubs):
         if hasattr(m, 'install'):
             m.install(prog)
